@@ -710,7 +710,10 @@ impl<Backing : AsRef<[u32]> + AsMut<[u32]>> DrawTarget<Backing> {
         let integer_rect = ix as f32 == x        && iy as f32 == y &&
                                 iwidth as f32 == width && iheight as f32 == height;
 
-        if self.transform == Transform::identity() && integer_rect && self.clip_stack.is_empty() {
+        // a negative size spans the same area as the flipped rectangle: leave it to the general path
+        let positive_rect = iwidth >= 0 && iheight >= 0;
+
+        if self.transform == Transform::identity() && integer_rect && positive_rect && self.clip_stack.is_empty() {
             let bounds = intrect(0, 0, self.width, self.height);
             let mut irect = intrect(ix, iy, ix + iwidth, iy + iheight);
             irect = match irect.intersection(&bounds) {
